@@ -63,7 +63,7 @@ def bounds(tier):
     return {
         "dims_d2": _dims(2, tier),
         "dims_d3": _dims(3, tier),
-        "deviation_bound": {"quick": {"d2": 3, "d3": 2}, "thorough": {"d2": "full product", "d3": 3}}[tier],
+        "deviation_bound": {"quick": {"d2": 3, "d3": 2}, "thorough": {"d2": 5, "d3": 3}}[tier],
         "group": "all of B_d",
         "shifts": "all cyclic shifts on wrapped axes (TORUS padding, no image dilation)",
         "class_level": "GeometricImage.convolve_with for (p,p') in {0,1}^2, k,k' in {0,1}, all g",
@@ -80,7 +80,7 @@ def enabled(c):
 
 def cases(tier, seed):
     out = []
-    plan = {"quick": {2: 3, 3: 2}, "thorough": {2: None, 3: 3}}[tier]
+    plan = {"quick": {2: 3, 3: 2}, "thorough": {2: 5, 3: 3}}[tier]
     for d in (2, 3):
         for cell, dev in explore.cells(_dims(d, tier), plan[d]):
             c = dict(cell, d=d, dev=dev, kind="cell")
@@ -218,7 +218,7 @@ def run_case(case, seed):
 
 
 CLAIM = {
-    "text": "Every enabled cell within the deviation bound (quick: 3 deviations d=2, 2 in d=3; thorough: full product d=2, 3 deviations d=3) is executed for ALL g in B_d and all cyclic shifts, on the full one-hot basis x basis table with exact ==, against an independent reference action; per-axis options travel with their axes. Class-level entry point checked for declared type and covariance with the declared parity.",
+    "text": "Every enabled cell within the deviation bound (quick: 3 deviations d=2, 2 in d=3; thorough: 5 deviations d=2 (of 8 dimensions), 3 deviations d=3) is executed for ALL g in B_d and all cyclic shifts, on the full one-hot basis x basis table with exact ==, against an independent reference action; per-axis options travel with their axes. Class-level entry point checked for declared type and covariance with the declared parity.",
     "note": "Trusted: vlib/ref/action.py; bilinearity of convolve (C04). Unit stride only. Cells beyond the deviation bound are not visited in the quick tier.",
     "technique": "deviation-bounded exhaustive enumeration of configuration cells x all group elements x all shifts, exact comparison with a reference action",
 }
